@@ -38,15 +38,15 @@ func c12ScenariosX(n, t int, extra bool) []Scenario {
 		sc = append(sc, Scenario{Name: fmt.Sprintf("%s/n%d/t%d", name, n, t), Family: fam, Call: c})
 	}
 	// --- SAM inputs: n single-record queries whose rows all differ
-	qseq := []string{"CTGAAATAACCC", "GTGCAATAACCC", "ATGAAATAACCA"} // two alleles at position 1, so aggregate keys tie on (position, type)
+	qseq := []string{"CTGAAATAACCC", "GTGCAATAACCC", "ATGAAATAACCA", "ATGAAGTAACTC"} // two alleles at position 1, so aggregate keys tie on (position, type)
 	sam := samHeader(12)
 	for i := 0; i < n; i++ {
 		sam += samRec(fmt.Sprintf("q%d", i), 0, 1, "12M", qseq[i])
 	}
 	// a query with an insertion and a deletion so pair rows differ in length too
 	samIndel := samHeader(12) + samRec("q0", 0, 1, "3M2I9M", "ATGGGAAATAACCC") + samRec("q1", 0, 1, "4M3D5M", "ATGATAACC")
-	if n > 2 {
-		samIndel += samRec("q2", 0, 1, "12M", qseq[2])
+	for i := 2; i < n; i++ {
+		samIndel += samRec(fmt.Sprintf("q%d", i), 0, 1, "12M", qseq[i])
 	}
 	ref := fastaOf("ref", g12)
 	gb := renderGenbank(g12, []Feat{{Name: "orfA", Segs: []Seg{{1, 9}}}})
@@ -87,6 +87,9 @@ func c12ScenariosX(n, t int, extra bool) []Scenario {
 	tt := []string{"t0", "AAAC", "t1", "AAAG", "t2", "AACA"}
 	if n > 2 {
 		tt = append(tt, "t3", "AAAN")
+	}
+	if n > 3 {
+		tt = append(tt, "t4", "AAAC")
 	}
 	tts := fastaOf(tt...)
 	add("closest", "closest", Call{Cmd: "closest", Query: tq, Target: tts, Measure: "raw"})
@@ -182,7 +185,7 @@ var c12SmallFamilies = map[string]bool{"toma": true, "topa-stdout": true, "topa-
 // c12BigScenarios: inputs with more records than the pipelines' channel buffers hold (50+threads,
 // NumCPU+50), so that stages really block on full buffers. Long executions: delay-bounded.
 func c12BigScenarios() []Scenario {
-	const n = 60
+	const n = 70 // more than the 50+threads channel buffers, and more than a power-of-two-sized ring would hold
 	var sc []Scenario
 	add := func(name, fam string, c Call) {
 		c.Threads, c.NCPU = 2, 2
@@ -226,6 +229,9 @@ func c12All(tier string) []Scenario {
 		with(c12Scenarios(2, 1), func(s *Scenario) string { return "U" })
 		with(c12CSVScenarios(2), func(s *Scenario) string { return "U" })
 		sc = append(sc, c12BigScenarios()...)
+		// four records: enough for two records to overtake a third (delay-bounded: a delayed goroutine
+		// stays delayed for as long as the others can run)
+		with(c12Scenarios(4, 2), func(s *Scenario) string { return "D2M1" })
 		return sc
 	}
 	with(c12ScenariosX(2, 2, true), func(s *Scenario) string {
@@ -237,6 +243,7 @@ func c12All(tier string) []Scenario {
 	with(c12Scenarios(2, 1), func(s *Scenario) string { return "U" })
 	with(c12CSVScenarios(2), func(s *Scenario) string { return "U" })
 	with(c12BigScenarios(), func(s *Scenario) string { return "D2M1" })
+	with(c12Scenarios(4, 2), func(s *Scenario) string { return "D2M1" })
 	with(c12Scenarios(3, 2), func(s *Scenario) string { return "P2M2" })
 	with(c12Scenarios(2, 3), func(s *Scenario) string { return "P2M2" })
 	with(c12Scenarios(3, 3), func(s *Scenario) string {
@@ -271,7 +278,7 @@ func init() {
 				modes[s.Name] = s.Mode
 			}
 			return map[string]interface{}{"mode_per_scenario (U = all interleavings and map orders, pruned only by happens-before equivalence; PxMy = at most x preemptions and y non-sorted map orders; DxMy = at most x non-default scheduling choices of any kind and y non-sorted map orders)": modes,
-				"records": map[string]int{"quick": 2, "thorough": 3}[tier], "workers_and_NumCPU": map[string][]int{"quick": {1, 2}, "thorough": {1, 2, 3}}[tier], "scenarios": len(get(tier))}
+				"records": "2 (all interleavings), 4 (delay-bounded), 70 (delay-bounded); thorough also 3", "workers_and_NumCPU": map[string][]int{"quick": {1, 2}, "thorough": {1, 2, 3}}[tier], "scenarios": len(get(tier))}
 		},
 		Plan: func(tier string) ([]string, *engine.JobResult) {
 			depth := 1
